@@ -118,6 +118,7 @@ class LeanResult:
         self.build_log = ""
         self.driver_ok = False
         self.forbidden = []
+        self.leanchecker = {}
 
 
 def lean_build(prop_modules, need_driver=True):
@@ -165,6 +166,15 @@ def lean_build(prop_modules, need_driver=True):
                     res.failed[n] = "non-standard axioms: %s" % sorted(seen[n] - STD_AXIOMS)
                 else:
                     res.discharged.append(n)
+            if os.environ.get("VERIF_TIER") == "thorough" or "--tier thorough" in " ".join(sys.argv) or ("thorough" in sys.argv):
+                # thorough tier: the compiled module is re-checked by the toolchain's independent checker
+                rc, out = lake(["env", "leanchecker", mod], timeout=3600)
+                res.build_log += out
+                res.leanchecker[mod] = "ok" if rc == 0 else out[-600:]
+                if rc != 0:
+                    for n in names:
+                        res.failed[n] = "leanchecker rejects %s" % mod
+                    res.discharged = [n for n in res.discharged if n not in names]
     limit_memory()
     res.forbidden = forbidden_hits(lean_files())
     if res.forbidden:
@@ -358,6 +368,7 @@ class Check:
             "tie_notes": self.tie_notes,
             "known_finding_hits": self.known_hits,
             "traces_validated_against_impl": self.traces_validated,
+            "leanchecker": (lean.leanchecker if lean else {}) or "thorough tier only",
         }
         cov.update(self.extra)
         ev = {
